@@ -227,11 +227,7 @@ Definition elim_sub (a b : list ((nat * nat) * nat)) : bool :=
 Record expect := { e_M0 : list (nat * nat); e_pl1 : list (list nat); e_pl2 : list (list nat);
                    e_rots : list rot; e_elim : list ((nat * nat) * nat); e_P : list (list nat);
                    e_ws : list Z; e_S : list nat; e_out : list (nat * nat) }.
-Definition icheck (c : list (list nat) * list (list nat) * list (list Z) * list (list Z) * nat * expect) : nat :=
-  let '(P1, P2, V1, V2, ff, e) := c in
-  match irving P1 P2 V1 V2 ff with
-  | None => 1%nat
-  | Some t =>
+Definition icheck_t (t : trace) (e : expect) : nat :=
     if negb (lp_eqb (t_M0 t) (e_M0 e)) then 2%nat
     else if negb (llnat_eqb (t_pl1 t) (e_pl1 e) && llnat_eqb (t_pl2 t) (e_pl2 e)) then 3%nat
     else if negb (llp_eqb (t_rots t) (e_rots e)) then 4%nat
@@ -239,7 +235,12 @@ Definition icheck (c : list (list nat) * list (list nat) * list (list Z) * list 
     else if negb (llnat_eqb (t_P t) (e_P e)) then 6%nat
     else if negb (lz_eqb (t_ws t) (e_ws e)) then 7%nat
     else if negb (lnat_eqb (t_S t) (e_S e)) then 8%nat
-    else match t_out t with Some o => if lp_eqb o (e_out e) then 0%nat else 9%nat | None => 10%nat end
+    else match t_out t with Some o => if lp_eqb o (e_out e) then 0%nat else 9%nat | None => 10%nat end.
+Definition icheck (c : list (list nat) * list (list nat) * list (list Z) * list (list Z) * nat * expect) : nat :=
+  let '(P1, P2, V1, V2, ff, e) := c in
+  match irving P1 P2 V1 V2 ff with
+  | None => 1%nat
+  | Some t => icheck_t t e
   end.
 Fixpoint imism (i : nat) (cs : list _) : list (nat * nat) :=
   match cs with [] => [] | c :: r => match icheck c with O => imism (S i) r | k => (i, k) :: imism (S i) r end end.
